@@ -40,7 +40,7 @@ Theorem tie_rxn_v2000_counts : forall data line l1 i0 i1 i2,
     let '(rc, pc, gc) := src_rxn_counts i0 i1 i2 in
     if gc =? 0 then Err ValueError else
     if (rc <? 0) || (pc <? rc) || (gc <? pc) then Err OtherError else
-    do st <- foldM (rxn_loop (fun d => lift2 (parse_mol_v2000 d)) (L "$MOL") 5 6 1 data) (nat_range (Z.to_nat gc)) (mk_rs 0 [] rc pc gc 0);
+    do st <- foldM (rxn_loop (fun d => lift2 (parse_mol_v2000 d)) (L "$MOL") 4 5 1 data) (nat_range (Z.to_nat gc)) (mk_rs 0 [] rc pc gc 0);
     rxn_result (title_of l1) st.
 Proof.
   intros data line l1 i0 i1 i2 H4 H0 H1 H2 Hl. unfold parse_rxn_v2000. rewrite H4. cbn [of_opt bind]. rewrite H0. cbn [bind]. rewrite H1. cbn [bind].
